@@ -903,6 +903,9 @@ class Interp:
                 k = self.choose([z3.BoolVal(True)] * len(perms), "set iteration order")
                 return list(perms[k])
             return items
+        if type(v).__module__.startswith("pyvc"):
+            # an object of the engine itself (lazy view, symbolic enumerate, ...): a limit of the subset, never a Python error
+            raise OutsideSubset(f"{what} over {type(v).__name__}")
         try:
             return list(v)
         except OutsideSubset:
